@@ -9,6 +9,7 @@ from __future__ import annotations
 
 import io
 import os
+import re
 import zipfile
 from collections import Counter
 
@@ -106,8 +107,14 @@ def manufactured_deck(rnd, nslides=3):
         s = prs.slides.add_slide(prs.slide_layouts[rnd.choice([0, 1, 5, 6])])
         tb = s.shapes.add_textbox(100, 100, 914400, 914400)
         tb.text_frame.text = "slide %d" % (i + 1)
-        if rnd.random() < 0.5:
+        if (rnd.random() < 0.5 and i > 0) or (i == 0 and rnd.random() < 0.15) or i == nslides - 1:
+            # (notes mostly on later slides: notesSlide numbers then differ from the numbers of the slides they belong to)
             s.notes_slide.notes_text_frame.text = "notes %d" % (i + 1)
+    blank_link = rnd.random() < 0.4
+    if blank_link:
+        rn = prs.slides[0].shapes[0].text_frame.paragraphs[0].add_run()
+        rn.text = "cleared link"
+        rn.hyperlink.address = "http://cleared.example/"
     if media:
         s = prs.slides[0]
         for fmt in ("PNG", "JPEG", "PNG"):  # -> image1.png, image2.jpg, image3.png
@@ -147,6 +154,24 @@ def manufactured_deck(rnd, nslides=3):
     m1 = {"/ppt/slides/slide%d.xml" % (i + 1): "/ppt/slides/tmpslide%d.xml" % (i + 1) for i in range(nslides)}
     m2 = {"/ppt/slides/tmpslide%d.xml" % (i + 1): "/ppt/slides/slide%d.xml" % nums[i] for i in range(nslides)}
     data = rename_members(rename_members(data, m1), m2)
+    if blank_link:
+        # the hyperlink relationship of slide 1 as a producer leaves it after the link was "cleared": Target="" (still referred to by
+        # the run's a:hlinkClick)
+        pk = opcx.Pkg.from_bytes(data)
+        out = {}
+        for name, blob in pk.members.items():
+            if name.startswith("ppt/slides/_rels/") and b"/hyperlink\"" in blob:
+                root = etree.fromstring(blob, opcx.PLAIN)
+                for rel in root.iter("{%s}Relationship" % opcx.NS_PR):
+                    if rel.get("Type", "").endswith("/hyperlink"):
+                        rel.set("Target", "")
+                blob = etree.tostring(root, xml_declaration=True, encoding="UTF-8", standalone=True)
+            out[name] = blob
+        buf = io.BytesIO()
+        with zipfile.ZipFile(buf, "w", zipfile.ZIP_DEFLATED) as zf:
+            for name, blob in out.items():
+                zf.writestr(name, blob)
+        data = buf.getvalue()
     if media:
         names = sorted(n for n in opcx.Pkg.from_bytes(data).members if n.startswith("ppt/media/image"))
         jpg = [n for n in names if not n.endswith(".png")]
@@ -159,7 +184,63 @@ def manufactured_deck(rnd, nslides=3):
                 m1["/" + n_] = "/ppt/media/tmpimage%d.png" % k
                 m2["/ppt/media/tmpimage%d.png" % k] = "/ppt/media/image%d.png" % k
             data = rename_members(rename_members(data, m1), m2)
+    # notes slides numbered independently of the slides they belong to (by the harness, whatever numbers the library under test
+    # gave them while the deck was built): compact 1..k in an order of their own
+    notes = sorted(n_ for n_ in opcx.Pkg.from_bytes(data).members if re.fullmatch(r"ppt/notesSlides/notesSlide\d+\.xml", n_))
+    if notes:
+        order = list(range(1, len(notes) + 1))
+        rnd.shuffle(order)
+        t1 = {"/" + n_: "/ppt/notesSlides/tmpNotes%d.xml" % k for k, n_ in enumerate(notes)}
+        t2 = {"/ppt/notesSlides/tmpNotes%d.xml" % k: "/ppt/notesSlides/notesSlide%d.xml" % order[k] for k in range(len(notes))}
+        data = rename_members(rename_members(data, t1), t2)
+    if rnd.random() < 0.5:
+        # relationship ids numbered unlike python-pptx numbers them, for the presentation part, the first slide or the package
+        pk = opcx.Pkg.from_bytes(data)
+        pres = [r_.target for r_ in pk.rels("/") if r_.type == opcx.RT_OFFICE_DOCUMENT][0]
+        first = next((r_.target for r_ in pk.rels(pres) if r_.type.endswith("/slide")), None)
+        src = rnd.choice([pres, pres, first or pres, "/"])
+        data = renumber_rids(data, src, rnd.choice(["shifted", "gap", "gap", "foreign"]), rnd)
     return data, nums
+
+
+def renumber_rids(data, source, how, rnd):
+    """The relationship ids of one source part (or of the package, source '/') re-spelt consistently in its relationship item
+    and in every r:* attribute of its XML: 'shifted' (rId2..rId<n+1>), 'gap' (one id moved to rId<n+1>: a hole below, the name
+    just above the count in use) or 'foreign' (R1fa0, R1fa1 ... as other producers write)."""
+    pk = opcx.Pkg.from_bytes(data)
+    item = opcx.rels_item_name(source)[0:] if source != "/" else "_rels/.rels"
+    item = item.lstrip("/")
+    if item not in pk.members:
+        return data
+    root = etree.fromstring(pk.members[item], opcx.PLAIN)
+    rels = list(root.iter("{%s}Relationship" % opcx.NS_PR))
+    ids = [r_.get("Id") for r_ in rels]
+    n = len(ids)
+    if n < 2:
+        return data
+    if how == "shifted":
+        mapping = {old: "rId%d" % (k + 2) for k, old in enumerate(ids)}
+    elif how == "gap":
+        mapping = {old: "rId%d" % (k + 1) for k, old in enumerate(ids)}
+        mapping[ids[rnd.randrange(0, n - 1)]] = "rId%d" % (n + 1)
+    else:
+        mapping = {old: "R1fa%x" % k for k, old in enumerate(ids)}
+    for r_ in rels:
+        r_.set("Id", mapping[r_.get("Id")])
+    out = dict(pk.members)
+    out[item] = etree.tostring(root, xml_declaration=True, encoding="UTF-8", standalone=True)
+    if source != "/":
+        part = etree.fromstring(pk.members[source[1:]], opcx.PLAIN)
+        for el in part.iter():
+            for k_, v_ in list(el.attrib.items()):
+                if k_.startswith("{%s}" % opcx.NS_R) and v_ in mapping:
+                    el.set(k_, mapping[v_])
+        out[source[1:]] = etree.tostring(part, xml_declaration=True, encoding="UTF-8", standalone=True)
+    buf = io.BytesIO()
+    with zipfile.ZipFile(buf, "w", zipfile.ZIP_DEFLATED) as zf:
+        for name, blob in out.items():
+            zf.writestr(name, blob)
+    return buf.getvalue()
 
 
 def open_start(start, rnd):
@@ -369,7 +450,7 @@ class Run:
             root = part._element
             if root.tag not in ("{%s}sld" % P, "{%s}sldLayout" % P, "{%s}sldMaster" % P, "{%s}notes" % P, "{%s}notesMaster" % P):
                 continue
-            ids = xp(root, "//p:cNvPr[not(ancestor::p:oleObj)]/@id")  # the icon picture nested in p:oleObj carries id=0 by convention
+            ids = xp(root, "//p:cNvPr[not(ancestor::p:oleObj and @id='0')]/@id")  # the icon picture nested in p:oleObj carries id=0 by convention (any other id it carries counts)
             dups = {i for i, c in Counter(ids).items() if c > 1}
             known = self.id_dups.setdefault(part, None)
             if known is None:
@@ -447,8 +528,8 @@ class Run:
                 rid = el.get("{%s}id" % opcx.NS_R)
                 rel = part.rels.get(rid) if hasattr(part.rels, "get") else None
                 kind = None if rel is None else rel.reltype.rsplit("/", 1)[-1]
-                if kind not in ("hyperlink", "slide") and (id(el), rid) not in known_bad:
-                    known_bad.add((id(el), rid))
+                if kind not in ("hyperlink", "slide") and (id(el), rid, kind) not in known_bad:
+                    known_bad.add((id(el), rid, kind))  # (an id that designated nothing at open and designates an image now is a new event)
                     if opname != "open":
                         self.report("C06", "link-rId-designates-%s" % (kind or "nothing"), "op %s: <a:%s r:id=%r> in %s designates a relationship of kind %s" % (opname, el.tag.split("}")[1], rid, part.partname, kind))
         self.acc.count("hyperlink_rids_checked")
@@ -816,9 +897,9 @@ def pick_start(r, starts=None, index=None):
         return {"kind": "default"}
     if index is not None and index < len(corpus_starts()):
         return corpus_starts()[index]  # the first histories of a run take every corpus deck once, whatever the seed; the rest draw
-    if k < 0.45:
+    if k < 0.4:
         return {"kind": "default"}
-    if k < 0.6:
+    if k < 0.7:
         return {"kind": "manufactured", "k": r.randrange(1000), "n": r.choice([2, 3, 4])}
     decks = corpus_starts()
     return r.choice(decks)
